@@ -122,15 +122,25 @@ class Scheduler:
     def tracer(self, name):
         sched = self
 
+        state = {"flag_passed": False, "after_flag_seen": False}
+
         def local(frame, event, arg):
             code = frame.f_code
-            if event == "line" and code.co_name == "_resolve_forward_references":
+            if code.co_name != "_resolve_forward_references":
+                return local
+            if event in ("line", "return") and state["flag_passed"] and not state["after_flag_seen"]:
+                # the very next thing this thread does after publishing the flag, whatever it is: the window in which
+                # other threads already take the fast path while this one may still have work to do
+                state["after_flag_seen"] = True
+                sched.arrive(name, (3, 1))
+            if event == "line":
                 src = linecache.getline(code.co_filename, frame.f_lineno)
                 if "resolve_types(" in src:
                     sched.counts[name][2] += 1
                     sched.arrive(name, (2, sched.counts[name][2]))
                 elif "_resolved_forward_references = True" in src:
                     sched.arrive(name, (3, 0))
+                    state["flag_passed"] = True
             return local
 
         def glob(frame, event, arg):
